@@ -2,9 +2,11 @@
    order of reset() (gen/GenResetOrder.v): model files only, ExtrOcamlBasic only, no Extract Constant. *)
 Require Extraction.
 Require Import ExtrOcamlBasic.
-From V Require Import Base GenResetOrder ResetRace.
+From V Require Import Base GenResetOrder GenDestroyOrder ResetRace ResetRaceDestroy.
 Extraction Language OCaml.
 Extraction "vmodel.ml"
   rr_run rr_step rr_at_call rr_classify returned nothing_leftb cb_quietb delay_firstb
   Build_rr_variant rv_gen reset_order reset_locks_targets reset_order_source_ok
+  d_run d_step d_at_call destroy_prog d_classify Build_dvariant dv_gen destroy_safeb destroy_safe_by_orderb
+  destroy_source_ok destroy_locks_targets destroy_drops_al destroy_joins_in_body destroy_members
   Datatypes.nat. (* common.ml converts nat *)
